@@ -27,6 +27,7 @@ import (
 	"path/filepath"
 	"strconv"
 	"sync"
+	"syscall"
 	"time"
 
 	"github.com/containerd/nri/pkg/api"
@@ -712,6 +713,11 @@ func isFatalError(err error, req proto.Message) bool {
 	case errors.Is(err, ttrpc.ErrProtocol):
 		return true
 	case errors.Is(err, context.DeadlineExceeded):
+		return true
+	case errors.Is(err, syscall.ECONNRESET), errors.Is(err, syscall.EPIPE):
+		// The plugin closed its end while we were sending the request. ttrpc reports
+		// this as ErrClosed only for EPIPE on a write and ECONNRESET on a read; a write
+		// can be the first to see the reset, too.
 		return true
 	case errors.Is(err, io.ErrUnexpectedEOF):
 		// The connection ended in the middle of a frame or message. ttrpc reports
